@@ -168,6 +168,14 @@ func c13Item(c *ctx, k ref.Kind, n int) {
 		c.Violation(fmt.Sprintf("C13/decoder/length-read-back/%s/lenbytes=%d", k, lb), fmt.Sprintf("decoded %s x %d re-encodes to %d bytes (prefix %x), input had %d", k, n, len(rb), clipB(rb), len(full)), cs)
 		return
 	}
+	// the message framing of the real encoder (4-byte message length), not only the harness's own framing
+	var viaMsg []byte
+	if o := real.Try(func() {
+		viaMsg = ast.NewHSMSDataMessage("", 1, 1, 0, "H<->E", node, 7, []byte{0, 0, 0, 0}).ToBytes()
+	}); o.Panicked || !bytes.Equal(viaMsg, full) {
+		c.Violation(fmt.Sprintf("C13/message-framing/%s/lenbytes=%d", k, lb), fmt.Sprintf("DataMessage.ToBytes() around %s x %d: %s, %d bytes, prefix %x; want %d bytes, prefix %x", k, n, o, len(viaMsg), clipB(viaMsg), len(full), clipB(full)), cs)
+		return
+	}
 	if n <= 70000 && k != ref.A {
 		if dm, isData := dec.(*ast.DataMessage); isData {
 			want := fmt.Sprintf("<%s[%d]", k, n)
@@ -278,7 +286,37 @@ func runC13(c *ctx) {
 	for range bigJobs {
 		<-done
 	}
-	c.Required = []string{"item/beyond-limit", "item/lenbytes=3/L", "item/lenbytes=3/A", "item/lenbytes=3/F8", "item/lenbytes=2/U2", "header-sweep-points"}
+	// several length fields of different widths in one message, wide ones first (a decoder that keeps state between
+	// length fields must not carry it over)
+	for _, sizes := range [][]int{{256, 1}, {65536, 300, 5}, {300, 2, 70000, 1}, {1, 256, 1}, {65535, 65536, 255, 256, 0}} {
+		var args []interface{}
+		for _, sz := range sizes {
+			args = append(args, c13Build(ref.B, sz), c13Build(ref.A, sz), c13Build(ref.U2, sz/2))
+		}
+		var b []byte
+		o := real.Try(func() { b = ast.NewHSMSDataMessage("", 1, 1, 0, "H<->E", ast.NewListNode(args...), 7, []byte{0, 0, 0, 0}).ToBytes() })
+		c.NoteBulk(1, 1)
+		c.Class("mixed-length-fields")
+		dec, ok, _ := hsmsParse(b)
+		if o.Panicked || len(b) == 0 || !ok || !bytes.Equal(dec.ToBytes(), b) {
+			c.Violation("C13/decoder/mixed-length-fields", fmt.Sprintf("a list of items with payload sizes %v does not decode back (built: %s, %d bytes, ok=%v)", sizes, o, len(b), ok), c13Case{"mixed", "B+A+U2", sizes[0]})
+		}
+	}
+	// the limit also binds an ASCII value that arrives through FillVariables
+	for _, n := range []int{ref.MaxBytes, ref.MaxBytes + 1} {
+		var filled ast.ItemNode
+		o := real.Try(func() {
+			filled = ast.NewASCIINodeVariable("v", 0, -1).FillVariables(map[string]interface{}{"v": strings.Repeat("f", n)})
+		})
+		c.NoteBulk(1, 1)
+		c.Class("ascii-fill-at-the-limit")
+		if (n <= ref.MaxBytes) == o.Panicked {
+			c.Violation("C13/fill/limit", fmt.Sprintf("filling %d characters into an ASCII variable: %s", n, o), c13Case{"fill", "A", n})
+		} else if !o.Panicked && len(filled.ToBytes()) != n+4 {
+			c.Violation("C13/fill/encoding", fmt.Sprintf("filled ASCII of %d characters encodes to %d bytes", n, len(filled.ToBytes())), c13Case{"fill", "A", n})
+		}
+	}
+	c.Required = []string{"mixed-length-fields", "ascii-fill-at-the-limit", "item/beyond-limit", "item/lenbytes=3/L", "item/lenbytes=3/A", "item/lenbytes=3/F8", "item/lenbytes=2/U2", "header-sweep-points"}
 }
 
 func replayC13(c *ctx, raw json.RawMessage) {
